@@ -50,12 +50,14 @@ func C15Cells() [][3]string {
 
 // staller opens a transport-level connection to the server endpoint the way a
 // client of that kind would, and then misbehaves at the chosen point.
-func startStaller(r *Run, w *World, id int, ep, point, behaviour string) {
+func startStaller(r *Run, w *World, id int, ep, point, behaviour string, goDark func(ip string)) {
+	stallerIP := fmt.Sprintf("10.0.1.%d", 10+id)
 	port := CarrierPort(ep)
 	n := r.Net
 	n.SourceIP = fmt.Sprintf("10.0.1.%d", 10+id)
 	var conn net.Conn
 	var err error
+	var dnsComm *sdns.NetConnectionClientCommunicator
 	switch ep {
 	case "tcp", "tcp+tls":
 		conn, err = n.Dial("tcp", fmt.Sprintf("%s:%d", ServerIP, port), 0)
@@ -70,7 +72,16 @@ func startStaller(r *Run, w *World, id int, ep, point, behaviour string) {
 			conn, err = kcp.NewConn2(&net.UDPAddr{IP: net.ParseIP(ServerIP), Port: port}, nil, 10, 3, pc)
 		}
 	case "dns+udp", "dns+tcp":
-		// DNS stallers run the real DNS-level handshake in their own goroutine below
+		// DNS stallers run the real DNS-level handshake in their own goroutine below; the socket is
+		// bound here, while the staller's own source address is in force
+		addr := fmt.Sprintf("%s:%d", ServerIP, port)
+		var servers sdns.AddressList
+		if ep == "dns+tcp" {
+			servers = sdns.AddressList{sdns.MustResolveNetworkAddress("tcp", addr, "53")}
+		} else {
+			servers = sdns.AddressList{sdns.MustResolveNetworkAddress("udp", addr, "53")}
+		}
+		dnsComm, err = sdns.NewNetConnectionClientCommunicator(&sdns.ClientConfig{Servers: servers})
 	}
 	n.SourceIP = ClientIP
 	if err != nil {
@@ -81,17 +92,7 @@ func startStaller(r *Run, w *World, id int, ep, point, behaviour string) {
 	go func() {
 		defer func() { recover() }()
 		if ep == "dns+udp" || ep == "dns+tcp" {
-			addr := fmt.Sprintf("%s:%d", ServerIP, port)
-			var servers sdns.AddressList
-			if ep == "dns+tcp" {
-				servers = sdns.AddressList{sdns.MustResolveNetworkAddress("tcp", addr, "53")}
-			} else {
-				servers = sdns.AddressList{sdns.MustResolveNetworkAddress("udp", addr, "53")}
-			}
-			comm, err := sdns.NewNetConnectionClientCommunicator(&sdns.ClientConfig{Servers: servers})
-			if err != nil {
-				return
-			}
+			comm := dnsComm
 			dc, err := sdns.NewClientDnsConnection(Domain, comm)
 			if err != nil {
 				return
@@ -137,6 +138,11 @@ func startStaller(r *Run, w *World, id int, ep, point, behaviour string) {
 			misbehave(conn, behaviour, []byte(announce[17:40]))
 		case "between":
 			conn.Write([]byte(announce))
+			if goDark != nil {
+				// the peer's host vanishes with the server's answer still unacknowledged
+				goDark(stallerIP)
+				return
+			}
 			buf := make([]byte, 4096)
 			conn.Read(buf)
 			misbehave(conn, behaviour, []byte(upgradeReq[:20]))
@@ -154,6 +160,10 @@ func startStaller(r *Run, w *World, id int, ep, point, behaviour string) {
 			buf := make([]byte, 4096)
 			conn.Read(buf)
 			conn.Write([]byte(upgradeReq))
+			if goDark != nil {
+				goDark(stallerIP)
+				return
+			}
 			conn.Read(buf)
 		}
 	}()
@@ -232,9 +242,38 @@ func scenarioC15(r *Run) {
 	}
 	cs := NewConnSet(r, w, "app", conns)
 	pol := &NetPolicy{ChunkBias: c.Pick(2, "chunk-bias")}
+	darkIPs := map[string]bool{}
+	r.DgramFilter = func(seq int) bool {
+		if len(darkIPs) == 0 {
+			return false
+		}
+		d := r.Net.PeekDgram(seq)
+		if d == nil {
+			return false
+		}
+		from, to := d.From.String(), d.To.String()
+		for ip := range darkIPs {
+			if strings.HasPrefix(from, ip+":") || strings.HasPrefix(to, ip+":") {
+				r.Net.DropDgram(seq)
+				return true
+			}
+		}
+		return false
+	}
 	started := 0
+	waited := false
+	lateArrival := []time.Duration{0, 0, 0, 90 * time.Second, 7 * time.Minute, 12 * time.Minute}[c.Pick(6, "late-arrival")]
+	r.Info["late_arrival"] = lateArrival.String()
 	openedAt := map[int]time.Duration{}
 	doneAt := map[int]time.Duration{}
+	stamp := func() {
+		cs.Assign()
+		for _, lc := range conns {
+			if _, ok := doneAt[lc.I]; !ok && lc.Opened && cs.Complete(lc, false) {
+				doneAt[lc.I] = r.SimElapsed()
+			}
+		}
+	}
 	extra := func() []Ev {
 		var evs []Ev
 		if started < nst {
@@ -243,11 +282,43 @@ func scenarioC15(r *Run) {
 				started++
 				r.Logf("staller %d connects (%s, %s, %s)", id, ep, point, behaviour)
 				r.AddShape("staller")
-				startStaller(r, w, id, ep, point, behaviour)
+				var dark func(ip string)
+				if CarrierIsDNS(ep) && ep == "dns+udp" && behaviour == "silent" && (point == "between" || point == "after-upgrade") && c.Chance(1, 2, "staller-host-vanishes") {
+					dark = func(ip string) {
+						darkIPs[ip] = true
+						r.Count("fault_staller_host_vanished")
+						r.Logf("staller %d: host %s vanishes (every datagram from and to it is lost from now on)", id, ip)
+					}
+				}
+				startStaller(r, w, id, ep, point, behaviour, dark)
 			}})
 		}
-		// at least one staller is in place before the last good client arrives
-		if !(cs.nOpen == ngood-1 && started == 0) {
+		// at least one staller is in place before the last good client arrives - and, in some runs, has
+		// been in place for a while ("during that time": the server's own timers for the stalled peer's
+		// session - expiry, pruning, keep-alive - fire meanwhile)
+		if cs.nOpen == ngood-1 && started > 0 && lateArrival > 0 && !waited {
+			// (the clients already connected finish first: their scripted writes are driver decisions and
+			// would otherwise stand still during the wait)
+			stamp()
+			busy := false
+			for _, lc := range conns {
+				if _, ok := doneAt[lc.I]; lc.Opened && !ok {
+					busy = true
+				}
+			}
+			if !busy {
+				evs = append(evs, Ev{Kind: "app", Desc: fmt.Sprintf("the last client arrives %v later", lateArrival), key: "w", Do: func() {
+					waited = true
+					r.Count("late_arrivals")
+					r.AddShape("late")
+					// in slices, so that clients that complete meanwhile are stamped when they complete
+					for end := r.SimElapsed() + lateArrival; r.SimElapsed() < end; {
+						r.RunFor(5 * time.Second)
+						stamp()
+					}
+				}})
+			}
+		} else if !(cs.nOpen == ngood-1 && started == 0) {
 			evs = append(evs, cs.OpenEv(func(i int) { openedAt[i] = r.SimElapsed() })...)
 		}
 		evs = append(evs, cs.PeerEvents()...)
@@ -267,7 +338,7 @@ func scenarioC15(r *Run) {
 		}
 		return all
 	}
-	out := r.Drive(pol, goal, extra, 90*time.Second, 15*time.Minute)
+	out := r.Drive(pol, goal, extra, 90*time.Second, 35*time.Minute)
 	if out == Aborted {
 		return
 	}
